@@ -18,6 +18,20 @@ warnings.simplefilter("ignore")
 onp.seterr(all="ignore")
 
 
+def reject_threshold(n, p=0.01, alpha=1e-7):
+    """smallest k with P[Binomial(n, p) >= k] < alpha: the property allows a wrong rule to pass with probability
+    up to 0.01 per run, so a handful of passes in n runs is not evidence against it"""
+    from math import comb
+    tail = 1.0
+    k = 0
+    while True:
+        # tail = P[X >= k]
+        if tail < alpha:
+            return max(k, 2)
+        tail -= comb(n, k) * p ** k * (1 - p) ** (n - k)
+        k += 1
+
+
 def frac(x):
     n, d = float(x).as_integer_ratio()
     return [n, d]
@@ -218,7 +232,7 @@ def main():
                     out["oracle_bad"].append({"oracle": "check_grads", "kind": kind, "mode": mode, "order": order,
                                               "what": "a correct rule was rejected in %d of %d runs" % (trials - passes, trials),
                                               "site": {"oracle": "check_grads-accept"}})
-                if (not correct_here) and passes > max(0, trials // 100):
+                if (not correct_here) and passes >= reject_threshold(trials):
                     out["oracle_bad"].append({"oracle": "check_grads", "kind": kind, "mode": mode, "order": order,
                                               "what": "a defective %s rule passed in %d of %d runs" % (mode, passes, trials),
                                               "site": {"oracle": "check_grads-reject"}})
